@@ -117,6 +117,29 @@ def stress_user_name_equals_auto_name(ctx, x, y):
     return ctx(r)
 
 
+def stress_constant_names(ctx, x, y):
+    # anonymous constants whose generated names are easy to confuse: same mantissa with opposite binary
+    # exponents (scale down / scale up), same digits with opposite signs, integral and nearly integral values,
+    # a value and its negation
+    lo = 2.0**-600
+    hi = 2.0**600
+    n = ctx.sqrt((x * lo) * (x * lo) + (y * lo) * (y * lo)) * hi
+    m = x * 2.5 + y * 0.625 + x * (-2.5) * y
+    k = x * 3.0 + y * 3.0000000000000004 + (x + 1e22) * 1e-22
+    return n + m * k
+
+
+def stress_constant_left_compare(ctx, z):
+    # comparisons whose LEFT operand is a constant attached to a value that has not been printed yet
+    # (Python's `0 < y` would be reflected to `y > 0`; the Context methods keep the order)
+    y = z.imag
+    c = ctx.lt(0, y)
+    d = ctx.ge(ctx.constant(2, z.real), z.real)
+    e = ctx.le(ctx.constant(1.5, abs(z)), abs(z))
+    r = ctx.select(c, z.real, -z.real) + ctx.select(d, y, -y)
+    return ctx.select(e, r, r * 2)
+
+
 def stress_shadow(ctx, x):
     # local names chosen to collide with names that library algorithms use internally
     one = ctx.constant(1, x)
@@ -145,6 +168,8 @@ STRESS = {
     "stress_dunder_names": (stress_dunder_names, 1, "complex"),
     "stress_folded_constants": (stress_folded_constants, 1, "float"),
     "stress_user_name_equals_auto_name": (stress_user_name_equals_auto_name, 2, "float"),
+    "stress_constant_names": (stress_constant_names, 2, "float"),
+    "stress_constant_left_compare": (stress_constant_left_compare, 1, "complex"),
 }
 STRESS_SIGS = {
     "python": {"float": [":float"], "complex": [":complex"]},
